@@ -7,6 +7,9 @@ import (
 	"hash/fnv"
 	"math"
 	"math/rand/v2"
+	"runtime"
+	"sync"
+	"sync/atomic"
 	"testing"
 
 	"github.com/platinummonkey/go-concurrency-limits/core"
@@ -213,7 +216,9 @@ func lockstep(idx int64, m mk, ops []op) (changes int) {
 			if bits(before) != bits(after) {
 				changes++
 				rel := math.Abs(after-before) / math.Max(math.Abs(before), math.Abs(after))
-				if !flag && rel > m.flagTol {
+				// the moving variance's Update overwrites only its cached standard deviation, which Add's flag is computed
+				// from: after an Update the flag is not judged for it until the next Reset (DESIGN 11.2)
+				if !flag && rel > m.flagTol && !(dirty && m.flagTol > 0) {
 					viol("flag-false-on-change", i, rt.J{"before": before, "after": after, "sample": o.V})
 				}
 				rt.Count("adds_changing_value", 1)
@@ -382,12 +387,54 @@ func windowCase(idx int64, r *rand.Rand) {
 	}
 }
 
+// concurrentMinimum: several goroutines Add to one MinimumMeasurement at the same moment; at quiescence Get must be the
+// minimum of everything added (each Add is atomic in correct code, so the order cannot matter).
+func concurrentMinimum(idx int64, r *rand.Rand) {
+	m := &measurements.MinimumMeasurement{}
+	m.Add(1e12)
+	n := 2 + r.IntN(7)
+	vals := make([]float64, n)
+	lo := 1e18
+	for i := range vals {
+		vals[i] = float64(10 + r.IntN(100000))
+		if vals[i] < lo {
+			lo = vals[i]
+		}
+	}
+	var start, wg sync.WaitGroup
+	start.Add(1)
+	var ready atomic.Int32
+	for i := range vals {
+		wg.Add(1)
+		go func(v float64) {
+			defer wg.Done()
+			ready.Add(1)
+			for ready.Load() < int32(n) {
+				runtime.Gosched()
+			}
+			m.Add(v)
+		}(vals[i])
+	}
+	start.Done()
+	wg.Wait()
+	rt.Count("concurrent_minimum_rounds", 1)
+	if got := m.Get(); got != lo {
+		rt.Violation("C18/minimum/not-minimum-after-concurrent-adds", idx, rt.J{"added_concurrently": vals, "get": got, "want": lo})
+		return
+	}
+	rt.Distinct(fmt.Sprintf("concmin|%v", vals))
+}
+
 func TestCheck(t *testing.T) {
 	rt.Cases(30000, 3000000, func(idx int64) {
 		r := rt.CaseRand(18, idx)
 		rt.Case()
 		if idx%6 == 5 {
 			windowCase(idx, r)
+			return
+		}
+		if idx%12 == 4 {
+			concurrentMinimum(idx, r)
 			return
 		}
 		m := genKinds(r)
